@@ -30,6 +30,7 @@ func init() {
 }
 
 func runC06(c *Ctx) {
+	c05SetRoles(c, "C06.anchors", "cas.content", "file.digestToPath", "file.status.exists", "file.status.lock", "resolver.lock", "resolver.index", "resolver.tags", "graph.lock", "graph.nodes", "graph.predecessors", "graph.successors", "oci.sync", "oci.indexLock", "oci.storage", "oci.tagResolver", "oci.graph", "oci.index")
 	c06R1(c)
 	c06R2Memory(c)
 	c06R2OCIStorage(c)
@@ -48,20 +49,28 @@ const c06UnsafeWhy = "lock-free view used by Delete: every unsafeStore is constr
 
 func c06GuardSpecs() []GuardSpec {
 	return []GuardSpec{
-		{Type: "~/internal/resolver.Memory", Fields: []string{"index", "tags"}, Lock: "lock"},
-		{Type: "~/content/oci.Store", Fields: []string{"storage", "tagResolver", "graph"}, Lock: "sync", Exempt: map[string]string{
-			"(*~/content/oci.unsafeStore).Fetch":        c06UnsafeWhy,
-			"(*~/content/oci.unsafeStore).Predecessors": c06UnsafeWhy,
-		}},
-		{Type: "~/content/oci.Store", Fields: []string{"index"}, Lock: "indexLock", Exempt: map[string]string{
+		{Type: "~/internal/resolver.Memory", Fields: []string{c05Cur.F("resolver.index"), c05Cur.F("resolver.tags")}, Lock: c05Cur.F("resolver.lock")},
+		{Type: "~/content/oci.Store", Fields: []string{c05Cur.F("oci.storage"), c05Cur.F("oci.tagResolver"), c05Cur.F("oci.graph")}, Lock: c05Cur.F("oci.sync"), Exempt: c06UnsafeExempt()},
+		{Type: "~/content/oci.Store", Fields: []string{c05Cur.F("oci.index")}, Lock: c05Cur.F("oci.indexLock"), Exempt: map[string]string{
 			"(*~/content/oci.Store).loadIndexFile": "construction: called only from NewWithContext on a store that is not yet shared (checked by the construction-only obligation)",
 		}},
-		{Type: "~/content/file.nameStatus", Fields: []string{"exists"}, Lock: "RWMutex"},
+		{Type: c05Cur.T("file.nameStatus"), Fields: []string{c05Cur.F("file.status.exists")}, Lock: c05Cur.F("file.status.lock")},
 	}
 }
 
+// c06UnsafeExempt: the methods of the lock-free view type (found by role: the
+// struct that wraps a *Store) that read the store's fields without s.sync.
+func c06UnsafeExempt() map[string]string {
+	out := map[string]string{}
+	if t := c05Cur.T("oci.unsafeStore"); t != "" {
+		out["(*"+t+").Fetch"] = c06UnsafeWhy
+		out["(*"+t+").Predecessors"] = c06UnsafeWhy
+	}
+	return out
+}
+
 func c06GraphSpec() GuardSpec {
-	return GuardSpec{Type: "~/internal/graph.Memory", Fields: []string{"nodes", "predecessors", "successors"}, Lock: "lock"}
+	return GuardSpec{Type: "~/internal/graph.Memory", Fields: []string{c05Cur.F("graph.nodes"), c05Cur.F("graph.predecessors"), c05Cur.F("graph.successors")}, Lock: c05Cur.F("graph.lock")}
 }
 
 func c06R1(c *Ctx) {
@@ -115,7 +124,7 @@ func c06StoreLockHeld(c *Ctx) func(f *ssa.Function, at ssa.Instruction, depth in
 		if len(f.Params) == 0 {
 			return false, "no receiver"
 		}
-		lp := "P:" + f.Params[0].Name() + ".sync"
+		lp := "P:" + f.Params[0].Name() + "." + c05Cur.F("oci.sync")
 		if at != nil && held(f)[at][lp] >= modeW {
 			return true, ""
 		}
@@ -175,7 +184,10 @@ func c06BlobRemovalExclusive(c *Ctx, R string) {
 // every unsafeStore value is built from a *Store whose sync mutex is held in
 // W mode at that point, and the value only flows into synchronous calls.
 func c06UnsafeStore(c *Ctx, R string) {
-	us := c.P.Named("content/oci", "unsafeStore")
+	var us *types.Named
+	if t := c05Cur.T("oci.unsafeStore"); t != "" {
+		us = c.P.Named("content/oci", t[strings.LastIndex(t, ".")+1:])
+	}
 	if us == nil {
 		c.OK(R, "unsafeStore|absent", token.NoPos, "no lock-free store view exists")
 		return
@@ -231,7 +243,7 @@ func c06UnsafeStore(c *Ctx, R string) {
 				c.Undecided(R, key, al.Pos(), "cannot find the *Store embedded into the unsafeStore literal")
 				return
 			}
-			lp := accessPath(inner) + ".sync"
+			lp := accessPath(inner) + "." + c05Cur.F("oci.sync")
 			heldHere := func(at ssa.Instruction) bool {
 				if held[at][lp] >= modeW {
 					return true
@@ -524,7 +536,7 @@ func c06R2Memory(c *Ctx) {
 	tn := FnName(fn)
 	onMap := func(call ssa.CallInstruction) bool {
 		a := call.Common().Args
-		return len(a) > 0 && c05IsFieldAddrOf(a[0], "~/internal/cas.Memory", "content")
+		return len(a) > 0 && c05IsFieldAddrOf(a[0], "~/internal/cas.Memory", c05Cur.F("cas.content"))
 	}
 	// instructions of Push that write the map, directly or through a helper
 	var writers []ssa.Instruction
@@ -655,7 +667,7 @@ func c06R2File(c *Ctx) {
 		// also calls that record digests (Add computes and records without fs mutation for plain files)
 		for _, call := range Calls(fn, func(string) bool { return true }) {
 			if g := StaticCallee(call); g != nil && inModule(g) && reachesCall(g, 3, func(n string, cc ssa.CallInstruction) bool {
-				return c05SyncMapWriters[n] && len(cc.Common().Args) > 0 && c05IsFieldAddrOf(cc.Common().Args[0], "~/content/file.Store", "digestToPath")
+				return c05SyncMapWriters[n] && len(cc.Common().Args) > 0 && c05IsFieldAddrOf(cc.Common().Args[0], "~/content/file.Store", c05Cur.F("file.digestToPath"))
 			}) {
 				dup := false
 				for _, e := range effects {
@@ -672,7 +684,7 @@ func c06R2File(c *Ctx) {
 		claimed := func(g *ssa.Function) (te, fe []Edge, isVal func(ssa.Value) bool) {
 			isLoad := func(v ssa.Value) bool {
 				u, ok := v.(*ssa.UnOp)
-				return ok && u.Op == token.MUL && c05IsFieldAddrOf(u.X, "~/content/file.nameStatus", "exists")
+				return ok && u.Op == token.MUL && c05IsFieldAddrOf(u.X, c05Cur.T("file.nameStatus"), c05Cur.F("file.status.exists"))
 			}
 			for _, i := range Ifs(g) {
 				cond, t, f := ifEdges(i)
@@ -686,7 +698,7 @@ func c06R2File(c *Ctx) {
 		// the per-name lock: receivers of Lock() on a nameStatus
 		statusBases := map[string]bool{}
 		for _, call := range CallsTo(fn, "(*sync.RWMutex).Lock", "(*sync.Mutex).Lock") {
-			if fa, ok := call.Common().Args[0].(*ssa.FieldAddr); ok && strings.HasPrefix(fieldName(fa.X.Type(), fa.Field), "~/content/file.nameStatus.") {
+			if fa, ok := call.Common().Args[0].(*ssa.FieldAddr); ok && c05Cur.T("file.nameStatus") != "" && strings.HasPrefix(fieldName(fa.X.Type(), fa.Field), c05Cur.T("file.nameStatus")+".") {
 				statusBases[accessPath(fa.X)] = true
 			}
 		}
@@ -706,7 +718,7 @@ func c06R2File(c *Ctx) {
 		for _, e := range effects {
 			okE := false
 			for b := range statusBases {
-				if held[e][b+".RWMutex"] >= modeW {
+				if held[e][b+"."+c05Cur.F("file.status.lock")] >= modeW {
 					okE = true
 				}
 			}
@@ -867,7 +879,7 @@ func c06R2Resolve(c *Ctx) {
 			if !ok || !lk.CommaOk || strip(lk.Index) != ssa.Value(ref) {
 				return
 			}
-			if u, ok := lk.X.(*ssa.UnOp); !ok || !c05IsFieldAddrOf(u.X, "~/internal/resolver.Memory", "index") {
+			if u, ok := lk.X.(*ssa.UnOp); !ok || !c05IsFieldAddrOf(u.X, "~/internal/resolver.Memory", c05Cur.F("resolver.index")) {
 				return
 			}
 			for _, r := range *lk.Referrers() {
@@ -940,7 +952,7 @@ func c06R2ResolverMaps(c *Ctx) {
 	const R = "C06.R2.refuse-before-mutate"
 	isIndex := func(v ssa.Value) bool {
 		u, ok := v.(*ssa.UnOp)
-		return ok && u.Op == token.MUL && c05IsFieldAddrOf(u.X, "~/internal/resolver.Memory", "index")
+		return ok && u.Op == token.MUL && c05IsFieldAddrOf(u.X, "~/internal/resolver.Memory", c05Cur.F("resolver.index"))
 	}
 	if fn := c06Fn(c, R, "internal/resolver", "Memory.Tag"); fn != nil {
 		var ref, desc *ssa.Parameter
